@@ -996,3 +996,44 @@ Qed.
 Theorem op_events_wellformed s o :
   wf_state s -> replay_pre (c_items s) (snd (do_op s o)).
 Proof. intros Hwf. eapply replay_some_pre, op_events_replay, Hwf. Qed.
+
+(* C05 (cache clause): the cache is updated before the event is handed over —
+   after a Create/Update event for an object, a Get returns that object (or,
+   later, something newer: no_version_regress) *)
+Theorem cache_not_older_after_event F c ev e :
+  In e (snd (do_update F c ev)) -> ev_ty e <> Delete ->
+  exists cu, clookup (key_of (ev_obj e)) (fst (do_update F c ev)) = Some cu /\ e_obj cu = ev_obj e.
+Proof.
+  intros Hin Hty. unfold do_update in *.
+  destruct (atoi (o_rv (ev_obj ev))) as [v|]; [|destruct Hin].
+  set (k := key_of (ev_obj ev)) in *.
+  set (en := {| e_ver := v; e_obj := ev_obj ev |}) in *.
+  assert (Hcase : forall t, t <> Delete ->
+     In e (snd (match clookup k c with
+                | Some cu => if Z.ltb (e_ver cu) v
+                             then if F (ev_obj ev) then (cset k en c, [mk_event Update (ev_obj ev)])
+                                  else (cremove k c, [mk_event Delete (ev_obj ev)])
+                             else (c, [])
+                | None => if F (ev_obj ev) then (cset k en c, [mk_event Create (ev_obj ev)]) else (c, [])
+                end)) ->
+     exists cu, clookup (key_of (ev_obj e))
+                  (fst (match clookup k c with
+                        | Some cu => if Z.ltb (e_ver cu) v
+                                     then if F (ev_obj ev) then (cset k en c, [mk_event Update (ev_obj ev)])
+                                          else (cremove k c, [mk_event Delete (ev_obj ev)])
+                                     else (c, [])
+                        | None => if F (ev_obj ev) then (cset k en c, [mk_event Create (ev_obj ev)]) else (c, [])
+                        end)) = Some cu /\ e_obj cu = ev_obj e).
+  { intros t _ H. destruct (clookup k c) as [cu|].
+    - destruct (Z.ltb (e_ver cu) v); [|destruct H].
+      destruct (F (ev_obj ev)); simpl in H; destruct H as [<-|[]]; simpl.
+      + exists en. split; [apply clookup_cset_same | reflexivity].
+      + exfalso. apply Hty. reflexivity.
+    - destruct (F (ev_obj ev)); simpl in H; [|destruct H]. destruct H as [<-|[]]. simpl.
+      exists en. split; [apply clookup_cset_same | reflexivity]. }
+  destruct (ev_ty ev) eqn:Hte.
+  - apply (Hcase Create); [discriminate | exact Hin].
+  - apply (Hcase Update); [discriminate | exact Hin].
+  - destruct (clookup k c); simpl in Hin; [|destruct Hin].
+    destruct Hin as [<-|[]]. exfalso. apply Hty. exact Hte.
+Qed.
